@@ -18,10 +18,12 @@ Inductive result :=
 | RReject                         (* the Spec rejects (assertion failure) *)
 | ROk (f : fork) (post : bytes) (root : bytes).
 
-Definition mk_env (c : Config)
+(* [hash] is Base.Sha256.sha256, possibly wrapped by the driver in a memo table (a pure function: caching
+   cannot change any result) *)
+Definition mk_env (c : Config) (hash : bytes -> bytes)
     (verify : bytes -> bytes -> bytes -> bool) (fav : list bytes -> bytes -> bytes -> bool)
     (agg : list bytes -> bytes) (engine : value -> list bytes -> bytes -> bool) : Env :=
-  mkEnv c sha256 zh_lookup verify fav agg engine.
+  mkEnv c hash zh_lookup verify fav agg engine.
 
 Definition decode_state (c : Config) (f : fork) (bs : bytes) : option BeaconState :=
   match deserialize (BeaconStateT c f) bs with
